@@ -8,11 +8,17 @@ import (
 	"go/ast"
 	"go/printer"
 	"path/filepath"
-	"strconv"
+	"regexp"
 	"strings"
 )
 
 func init() { extraGenerators = append(extraGenerators, genUrrSeq) }
+
+var vnum = regexp.MustCompile(`\bv[0-9]+\b`)
+
+// unnumber drops the numbers of canonical local names (v12 -> v): for statements of long functions, whose numbering
+// would change with every local variable added before them
+func unnumber(s string) string { return vnum.ReplaceAllString(s, "v") }
 
 func oneLine(n ast.Node) string {
 	var sb strings.Builder
@@ -27,9 +33,10 @@ func genUrrSeq(root, outdir string) {
 	o.b.WriteString(header)
 	o.p("(* source: %s *)", file)
 	fd := mustFunc(f, file, "Sess", "URRSeq")
+	canonLocals(fd, fd.Recv)
 	var stmts []string
 	for _, st := range fd.Body.List {
-		stmts = append(stmts, strconv.Quote(oneLine(st)))
+		stmts = append(stmts, coqStr(oneLine(st)))
 	}
 	o.p("Definition urrseq_body : list string := [%s].", strings.Join(stmts, "; "))
 	typ := ""
@@ -52,7 +59,7 @@ func genUrrSeq(root, outdir string) {
 	if typ == "" {
 		die("%s: URRInfo.SEQN not found", file)
 	}
-	o.p("Definition urr_seqn_type : string := %s.", strconv.Quote(typ))
+	o.p("Definition urr_seqn_type : string := %s.", coqStr(typ))
 	// every other assignment to a SEQN field in the package (there must be exactly the inheritance in CreateURR)
 	var writes []string
 	for _, name := range []string{"node.go", "session.go", "report.go", "association.go", "pfcp.go"} {
@@ -62,17 +69,18 @@ func genUrrSeq(root, outdir string) {
 			if !ok || fn.Body == nil || fn.Name.Name == "URRSeq" {
 				continue
 			}
+			canonLocals(fn, fn.Recv)
 			ast.Inspect(fn.Body, func(n ast.Node) bool {
 				switch x := n.(type) {
 				case *ast.AssignStmt:
 					for _, l := range x.Lhs {
 						if s, ok := l.(*ast.SelectorExpr); ok && s.Sel.Name == "SEQN" {
-							writes = append(writes, strconv.Quote(fn.Name.Name+": "+oneLine(x)))
+							writes = append(writes, coqStr(fn.Name.Name+": "+unnumber(oneLine(x))))
 						}
 					}
 				case *ast.IncDecStmt:
 					if s, ok := x.X.(*ast.SelectorExpr); ok && s.Sel.Name == "SEQN" {
-						writes = append(writes, strconv.Quote(fn.Name.Name+": "+oneLine(x)))
+						writes = append(writes, coqStr(fn.Name.Name+": "+unnumber(oneLine(x))))
 					}
 				}
 				return true
